@@ -16,6 +16,9 @@ def install(ip, rec):
     blackjax_models(ip)
 
     def unravel_model(ip_, tree):
+        # jax flattens a dict in SORTED key order, whatever order the dict was built in
+        if isinstance(tree, dict) and all(isinstance(k_, str) for k_ in tree):
+            tree = {k_: tree[k_] for k_ in sorted(tree)}
         return ip_.uf("ravel", ip_.to_U(tree)), PyFn(lambda ip2, flat: ip2.uf("unravel", ip2.to_U(flat)), "unravel_fn")
 
     ip.models["jax.flatten_util.ravel_pytree"] = unravel_model
@@ -32,12 +35,17 @@ def install(ip, rec):
     ip.summaries["liesel/goose/iwls_utils.py::mvn_sample"] = mvn_sample
 
     def mh(ip_, args, kwargs):
-        rec["mh_args"] = list(args)
-        rec["mh_kwargs"] = dict(kwargs)
+        rec["mh_args"] = list(args) + [kwargs[k] for k in ("prng_key", "model", "proposal", "model_state", "log_correction")[len(args):] if k in kwargs]  # as python binds them
+        rec["mh_kwargs"] = {k: v for k, v in kwargs.items() if k not in ("prng_key", "model", "proposal", "model_state", "log_correction")}
         info = new_obj(ip_, "liesel/goose/kernel.py::DefaultTransitionInfo", error_code=0, acceptance_prob=ip_.ctx.fresh("acc", Real), position_moved=0)
         return info, z3.Const("ms_after", U)
 
     ip.summaries["liesel/goose/mh.py::mh_step"] = mh
+    # library primitives a re-implementation of the proposal draw may use directly (uninterpreted: only their composition is compared)
+    ip.opaque_attr.setdefault("shape", lambda ip_, v: ip_.uf("shape", v))
+    ip.opaque_attr.setdefault("dtype", lambda ip_, v: ip_.uf("dtype", v))
+    ip.models.setdefault("jax.random.normal", lambda ip_, key, shape=(), dtype=None: ip_.uf("normal", ip_.to_U(key), ip_.to_U(shape)))
+    ip.models.setdefault("jax.scipy.linalg.solve_triangular", lambda ip_, a, b, **kw: ip_.uf("solve_triangular" + "".join(f"|{k}={kw[k]!r}" for k in sorted(kw)), ip_.to_U(a), ip_.to_U(b)))
     # grad / jacfwd of the flat log-prob function: uninterpreted functionals of the model state and the point
     ip.models["jax.grad"] = lambda ip_, f, **kw: PyFn(lambda ip2, x: ip2.uf("score_at", ip2.to_U(x)), "flat_score_fn")
     ip.models["jax.jacfwd"] = lambda ip_, f, **kw: PyFn(lambda ip2, x: ip2.uf("hessian_at", ip2.to_U(x)), "flat_hessian_fn")
@@ -57,7 +65,7 @@ def iwls_unit(user_info):
         c = ip.ctx
         rec = {}
         install(ip, rec)
-        k = sym_kernel(ip, "IWLS", keys=("a", "b"))
+        k = sym_kernel(ip, "IWLS", keys=("b", "a"))
         if user_info:
             k.f["chol_info_fn"] = PyFn(lambda ip_, st: ip_.uf("user_chol_info", ip_.to_U(st)), "chol_info_fn")
         ks = sym_da_state(ip, "IWLS")
@@ -116,7 +124,7 @@ def u_rw(ip):
     c = ip.ctx
     rec = {}
     install(ip, rec)
-    k = sym_kernel(ip, "RW", keys=("a", "b"))
+    k = sym_kernel(ip, "RW", keys=("b", "a"))
     ks = sym_da_state(ip, "RW")
     ms, key = z3.Const("ms", U), z3.Const("key", U)
     ip.call(method(ip, k, "_standard_transition"), [key, ks, ms, sym_epoch_state(ip)], {})
@@ -161,3 +169,10 @@ def u_mh(ip):
 from contracts.c05 import passthrough_unit  # noqa: E402
 
 passthrough_unit("MH", uid="C06.mh.correction_bit_for_bit", prop="C06")
+
+
+# the reported acceptance probability is computed by mh_step: its contract is part of this property too (same harness as C05.mh_step)
+from contracts.c05 import MH as _MH, u_mh_step  # noqa: E402
+
+unit("C06.mh_step_acceptance_probability", "C06", [f"{_MH}::mh_step"], float_mode="fp32",
+     assumptions=["A-FP binary32 (as C05.mh_step); exp by its relational abstraction (monotone, exp(0) = 1, exp(-inf) = 0)"])(u_mh_step)
